@@ -448,21 +448,54 @@ func runC43(c *Ctx) {
 	if pc := c.SSAFunc(rel, "BlockPipeline.PendingCount"); pc != nil {
 		ok := true
 		n := 0
+		// edges on which started.Load() was false
+		notStarted := func(from *ssa.BasicBlock, succ int) bool {
+			for _, ef := range edgeFacts(pc) {
+				if ef.From == from && ef.Succ == succ && strings.HasPrefix(ef.Fact, "F:call:sync/atomic.(*Bool).Load(") && strings.HasSuffix(ef.Fact, ".started)") {
+					return true
+				}
+			}
+			return false
+		}
+		started, _ := reachAvoiding(pc, notStarted)
+		judge := func(v ssa.Value, canBeStarted bool) {
+			for {
+				if cv, isCv := v.(*ssa.Convert); isCv {
+					v = cv.X
+					continue
+				}
+				break
+			}
+			if desc(v) == "0" || desc(v) == "0:int" {
+				// zero only before Start
+				ok = ok && !canBeStarted
+				return
+			}
+			n++
+			ok = ok && trace(v) == "Load(outstanding<p0)"
+		}
 		for _, b := range pc.Blocks {
 			r, isR := b.Instrs[len(b.Instrs)-1].(*ssa.Return)
 			if !isR {
 				continue
 			}
-			t := trace(r.Results[0])
-			if desc(r.Results[0]) == "0" {
-				v := c.mustPass(pc, []ssa.Instruction{r}, func(f string) bool { return strings.HasPrefix(f, "F:call:sync/atomic.(*Bool).Load(") && strings.HasSuffix(f, ".started)") })
-				ok = ok && v[0].OK
+			rv := returnedValue(r, 0)
+			if ph, isPhi := rv.(*ssa.Phi); isPhi && ph.Block() == b {
+				for i, e := range ph.Edges {
+					pred := b.Preds[i]
+					can := started[pred]
+					for si, sb := range pred.Succs {
+						if sb == b && notStarted(pred, si) {
+							can = false
+						}
+					}
+					judge(e, can)
+				}
 				continue
 			}
-			n++
-			ok = ok && t == "Load(outstanding<p0)"
+			judge(rv, started[b])
 		}
-		c.Check(ok && n == 1, "drain-reads-outstanding", ssaFuncKey(pc), pc.Pos(), "PendingCount is the outstanding counter", "PendingCount is not the outstanding-item counter: items held inside workers are invisible to WaitForDrain")
+		c.Check(ok && n >= 1, "drain-reads-outstanding", ssaFuncKey(pc), pc.Pos(), "PendingCount is the outstanding counter", "PendingCount is not the outstanding-item counter: items held inside workers are invisible to WaitForDrain")
 	} else {
 		c.Undecided("PendingCount not found")
 	}
@@ -635,9 +668,19 @@ func runC43(c *Ctx) {
 				}
 				n++
 				arg := trace(cc.Args[0])
+				// the call may sit in a small reporting helper of the runner: judged where run calls that helper
+				at := ci
+				if fn != run {
+					if ls := liftToCaller(run, ci, 2); len(ls) == 1 {
+						if lc, isCall := ls[0].(ssa.CallInstruction); isCall {
+							at = lc
+							arg = traceIP(run, cc.Args[0])
+						}
+					}
+				}
 				okArg := strings.HasPrefix(arg, "len(ProcessWithStatus(") && strings.HasSuffix(arg, "#0)")
 				okErr := false
-				if fn == run {
+				if at.Parent() == run {
 					reach, _ := reachAvoiding(run, func(from *ssa.BasicBlock, succ int) bool {
 						iff, isIf := from.Instrs[len(from.Instrs)-1].(*ssa.If)
 						if !isIf {
@@ -653,9 +696,9 @@ func runC43(c *Ctx) {
 						}
 						return (bo.Op.String() == "==" && succ == 0) || (bo.Op.String() == "!=" && succ == 1)
 					})
-					okErr = !reach[ci.Block()]
+					okErr = !reach[at.Block()]
 				}
-				c.Check(fn == run && okArg && okErr && !inLoopInner(ci), "outstanding-accounting", ssaFuncKey(fn)+":processed-call", ci.Pos(), "processed(len(returned items)) only on the nil-error result, once per result", "the processed callback is invoked with "+shortArg(arg)+" in "+ssaFuncKey(fn)+" (on the error path or with another count): an item still buffered is counted down, so drain can report 0 while a block is still to be applied")
+				c.Check(at.Parent() == run && okArg && okErr && !inLoopInner(at) && (at == ci || !inLoop(ci.Block())), "outstanding-accounting", rk+":processed-call", ci.Pos(), "processed(len(returned items)) only on the nil-error result, once per result", "the processed callback is invoked with "+shortArg(arg)+" in "+ssaFuncKey(fn)+" (on the error path or with another count): an item still buffered is counted down, so drain can report 0 while a block is still to be applied")
 			}
 		}
 		c.Check(n == 1, "outstanding-accounting", rk+":processed-sites", run.Pos(), "one call site of the processed callback", fmt.Sprintf("%d call sites of the processed callback", n))
